@@ -7,6 +7,7 @@ import (
 	"crypto/sha256"
 	"encoding/hex"
 	"fmt"
+	"github.com/gcash/bchd/chaincfg"
 	"math/big"
 	"reflect"
 	"strings"
@@ -171,6 +172,18 @@ func evalC01(c c01Case, o *Obs) error {
 	o.Class("C01:%s/%s", name, nets[c.Net].Name)
 	if err := c01TypedPayload(a, wantScript); err != nil {
 		return fmt.Errorf("%s on %s: %v", name, nets[c.Net].Name, err)
+	}
+	// the cash <-> SLP conversions build a new address; the one they are given stays what it was
+	if p.SlpAddressPrefix != "" {
+		before := a.String()
+		for _, conv := range []func(bchutil.Address, *chaincfg.Params) (bchutil.Address, error){bchutil.ConvertCashToSlpAddress, bchutil.ConvertSlpToCashAddress} {
+			if conv2, err := conv(a, p); err == nil && conv2 != nil {
+				_ = conv2.String()
+			}
+			if a.String() != before || !bytes.Equal(a.ScriptAddress(), wantScript) {
+				return fmt.Errorf("%s on %s: after a cash/SLP conversion of the address, the address itself prints as %q (was %q)", name, nets[c.Net].Name, a.String(), before)
+			}
+		}
 	}
 	if !bytes.Equal(a.ScriptAddress(), wantScript) {
 		return fmt.Errorf("%s on %s: ScriptAddress() = %x, want %x (payload %x)", name, nets[c.Net].Name,
